@@ -101,6 +101,27 @@ func assignTo(dec *Decoder, o interface{}, p interface{}) {
 	reflect.ValueOf(p).Elem().Set(v)
 }
 
+// convertedKey names an item of the reference table (the storage of a string or of bytes)
+// and the direction of a conversion between the two.
+type convertedKey struct {
+	data    unsafe.Pointer
+	length  int
+	toBytes bool
+}
+
+// rememberConverted keeps the copy made for a reference, for the references to the same
+// item that follow: every one of them made a copy of its own (a megabyte of text and 300
+// references of three bytes each kept 300 MB alive).
+func (dec *Decoder) rememberConverted(key convertedKey, copied interface{}) {
+	if key.length < 64 {
+		return // not worth an entry
+	}
+	if dec.converted == nil {
+		dec.converted = make(map[convertedKey]interface{})
+	}
+	dec.converted[key] = copied
+}
+
 func ptrCopy(dec *Decoder, o interface{}, p interface{}) {
 	if src := reflect.TypeOf(o); src.Kind() != reflect.Ptr && reflect2.Type2(src).LikePtr() {
 		// a map (or any value that is itself one pointer word): the interface word is the
@@ -292,11 +313,28 @@ func init() {
 		*(**big.Rat)(reflect2.PtrOf(p)) = dec.stringToBigRat(*(*string)(reflect2.PtrOf(o)), bigRatType)
 	})
 	RegisterConverter(stringType, bytesType, func(dec *Decoder, o interface{}, p interface{}) {
-		// a copy: bytes that share the storage of a Go string would let a write change the string
-		*(*[]byte)(reflect2.PtrOf(p)) = []byte(*(*string)(reflect2.PtrOf(o)))
+		// a copy: bytes that share the storage of a Go string would let a write change the
+		// string. One copy for all the references to the item: they are one value.
+		src := *(*string)(reflect2.PtrOf(o))
+		key := convertedKey{(*sliceHeader)(unsafe.Pointer(&src)).Data, len(src), true}
+		if copied, ok := dec.converted[key]; ok {
+			*(*[]byte)(reflect2.PtrOf(p)) = copied.([]byte)
+			return
+		}
+		copied := []byte(src)
+		dec.rememberConverted(key, copied)
+		*(*[]byte)(reflect2.PtrOf(p)) = copied
 	})
 	RegisterConverter(bytesType, stringType, func(dec *Decoder, o interface{}, p interface{}) {
-		*(*string)(reflect2.PtrOf(p)) = string(*(*[]byte)(reflect2.PtrOf(o)))
+		src := *(*[]byte)(reflect2.PtrOf(o))
+		key := convertedKey{(*sliceHeader)(unsafe.Pointer(&src)).Data, len(src), false}
+		if copied, ok := dec.converted[key]; ok {
+			*(*string)(reflect2.PtrOf(p)) = copied.(string)
+			return
+		}
+		copied := string(src)
+		dec.rememberConverted(key, copied)
+		*(*string)(reflect2.PtrOf(p)) = copied
 	})
 	RegisterConverter(stringType, timeType, func(dec *Decoder, o interface{}, p interface{}) {
 		*(*time.Time)(reflect2.PtrOf(p)) = dec.stringToTime(*(*string)(reflect2.PtrOf(o)))
